@@ -23,6 +23,10 @@ package nsqlookupd
 // when the solver picks equal readings, so exact threshold behaviour - <= versus < - is still
 // pinned).
 //
+// Identities: ordinarily the two peers are two nsqds (h0, h1). VerifC14_StepSharedNodeName lets
+// both connections announce ONE node name (verifC14Announce): registrations, pings and
+// disconnects stay per connection, a tombstone - which names the node - hides them all.
+//
 // Where the statement is silent the model follows the implementation's choice instead of
 // demanding one: the presence of an EMPTY ephemeral key after a disconnect or after a topic-level
 // UNREGISTER emptied one of its channels as a side effect. Pinned ("ephemeral names disappear
